@@ -33,3 +33,4 @@ open Lungo.C01
 #print axioms Lungo.C01.api_refines_partial
 #print axioms Lungo.C01.api_refines_run_from
 #print axioms Lungo.C01.api_refines_run
+#print axioms Lungo.C01.refines_createIndex
